@@ -269,6 +269,66 @@ func c27(repo string, out *fg.Out) error {
 		return fmt.Errorf("Receiver.Receive skeleton changed: got %v want %v", skeleton, want)
 	}
 
+
+	// ---- Agent.Run: which Ledger methods Run calls directly on a.ledger, as top-level statements of
+	// its body, unconditionally, and at which statement index. The exactly-once/termination argument
+	// needs RecoverInFlight at the start of EVERY pass (not once per Agent).
+	_, runFd := func() (*fg.File, *ast.FuncDecl) { return af, af.FuncDecl("Agent", "Run") }()
+	if runFd == nil {
+		return fmt.Errorf("Agent.Run not found")
+	}
+	var runLedgerCalls []string
+	for i, st := range runFd.Body.List {
+		var call *ast.CallExpr
+		switch x := st.(type) {
+		case *ast.AssignStmt:
+			if len(x.Rhs) == 1 {
+				call, _ = x.Rhs[0].(*ast.CallExpr)
+			}
+		case *ast.ExprStmt:
+			call, _ = x.X.(*ast.CallExpr)
+		}
+		if call == nil {
+			continue
+		}
+		if sel, ok := call.Fun.(*ast.SelectorExpr); ok {
+			if strings.HasSuffix(af.Text(sel.X), ".ledger") {
+				runLedgerCalls = append(runLedgerCalls, fmt.Sprintf("(%d, %s)", i, fg.LeanStr(sel.Sel.Name)))
+			}
+		}
+	}
+	// the first call statement of Run overall (to see that nothing precedes the recovery but locals)
+	firstCall := ""
+	for _, st := range runFd.Body.List {
+		found := ""
+		ast.Inspect(st, func(n ast.Node) bool {
+			if c, ok := n.(*ast.CallExpr); ok && found == "" {
+				t := af.Text(c.Fun)
+				if t != "time.Now" {
+					found = t
+				}
+			}
+			return found == ""
+		})
+		if found != "" {
+			firstCall = found
+			break
+		}
+	}
+
+	// ---- Reconciler.confirmPresent: from which collection the paths appended to `stale` are drawn.
+	recFile, cpFd := fg.FindFunc(files, "Reconciler", "confirmPresent")
+	if cpFd == nil {
+		return fmt.Errorf("Reconciler.confirmPresent not found")
+	}
+	staleRoots, err := staleAppendRoots(recFile, cpFd)
+	if err != nil {
+		return err
+	}
+	if len(staleRoots) == 0 {
+		return fmt.Errorf("confirmPresent: no append(stale, …) found")
+	}
+
 	// ---- emit
 	w := &out.Lean
 	fmt.Fprintf(w, "namespace Arc.Generated.C27\n")
@@ -288,12 +348,21 @@ func c27(repo string, out *fg.Out) error {
 	fmt.Fprintf(w, "def markSyncedSites : List String := %s\n", leanStrList(sites))
 	fmt.Fprintf(w, "/-- order of the steps of Receiver.Receive -/\n")
 	fmt.Fprintf(w, "def receiveSkeleton : List String := %s\n", leanStrList(skeleton))
+	fmt.Fprintf(w, "/-- Ledger methods Agent.Run calls directly, unconditionally, as top-level statements: (statement index, method) -/\n")
+	fmt.Fprintf(w, "def runLedgerCalls : List (Nat × String) := [%s]\n", strings.Join(runLedgerCalls, ", "))
+	fmt.Fprintf(w, "/-- the first call Agent.Run makes (besides time.Now) -/\n")
+	fmt.Fprintf(w, "def runFirstCall : String := %s\n", fg.LeanStr(firstCall))
+	fmt.Fprintf(w, "/-- collection each path appended to `stale` in Reconciler.confirmPresent is drawn from -/\n")
+	fmt.Fprintf(w, "def staleRoots : List String := %s\n", leanStrList(staleRoots))
 	fmt.Fprintf(w, "end Arc.Generated.C27\n")
 	out.JSON["transitions"] = table
 	out.JSON["initial_state"] = initial
 	out.JSON["default_max_attempts"] = maxAtt
 	out.JSON["mark_synced_sites"] = sites
 	out.JSON["receive_skeleton"] = skeleton
+	out.JSON["run_ledger_calls"] = runLedgerCalls
+	out.JSON["run_first_call"] = firstCall
+	out.JSON["stale_roots"] = staleRoots
 	return nil
 }
 
@@ -445,4 +514,74 @@ func firstN(s string, n int) string {
 		return s
 	}
 	return s[:n]
+}
+
+// staleAppendRoots resolves, for every `append(stale, X)` in fd, the collection X is drawn from:
+// X.f / X[i] → root of X; an identifier bound by `for _, v := range C` → root of C; an identifier that
+// is a parameter of a func literal invoked as `go func(..){..}(args)` → root of the matching argument.
+func staleAppendRoots(f *fg.File, fd *ast.FuncDecl) ([]string, error) {
+	type binding struct{ expr ast.Expr }
+	rangeVal := map[string]ast.Expr{} // value variable -> ranged collection
+	param := map[string]ast.Expr{}    // func-literal parameter -> call argument
+	ast.Inspect(fd.Body, func(n ast.Node) bool {
+		switch x := n.(type) {
+		case *ast.RangeStmt:
+			if id, ok := x.Value.(*ast.Ident); ok && id.Name != "_" {
+				rangeVal[id.Name] = x.X
+			}
+		case *ast.CallExpr:
+			if fl, ok := x.Fun.(*ast.FuncLit); ok {
+				i := 0
+				for _, fld := range fl.Type.Params.List {
+					for _, nm := range fld.Names {
+						if i < len(x.Args) {
+							param[nm.Name] = x.Args[i]
+						}
+						i++
+					}
+				}
+			}
+		}
+		return true
+	})
+	var root func(e ast.Expr, depth int) string
+	root = func(e ast.Expr, depth int) string {
+		if depth > 10 {
+			return "?"
+		}
+		switch x := e.(type) {
+		case *ast.SelectorExpr:
+			return root(x.X, depth+1)
+		case *ast.IndexExpr:
+			return root(x.X, depth+1)
+		case *ast.ParenExpr:
+			return root(x.X, depth+1)
+		case *ast.Ident:
+			if a, ok := param[x.Name]; ok {
+				if id, same := a.(*ast.Ident); !same || id.Name != x.Name {
+					return root(a, depth+1)
+				}
+			}
+			if c, ok := rangeVal[x.Name]; ok {
+				return root(c, depth+1)
+			}
+			return x.Name
+		}
+		return "?" + f.Text(e)
+	}
+	var roots []string
+	ast.Inspect(fd.Body, func(n ast.Node) bool {
+		c, ok := n.(*ast.CallExpr)
+		if !ok || fg.CalleeName(c) != "append" || len(c.Args) < 2 {
+			return true
+		}
+		if id, ok := c.Args[0].(*ast.Ident); !ok || id.Name != "stale" {
+			return true
+		}
+		for _, a := range c.Args[1:] {
+			roots = append(roots, root(a, 0))
+		}
+		return true
+	})
+	return roots, nil
 }
